@@ -163,6 +163,48 @@ class Server:
                 raise HarnessError('protocol error: %r' % hdr)
         return hdump, bad, results
 
+    def trace(self, events, flags=0):
+        """Applies the events one after another in ONE forked copy of the daemon.
+        Returns (results for the steps that completed, final status, stderr text, exit-probe text)."""
+        msg = [b'TRACE %d %d\n' % (len(events), flags)] + [self._enc(e) for e in events]
+        self.w.write(b''.join(msg))
+        results, status, err, ex = [], None, '', ''
+        while True:
+            hdr = self.r.readline()
+            if not hdr:
+                raise HarnessError('fork server died: ' + open(self.stderr_path).read()[-2000:])
+            p = hdr.split()
+            if p[0] == b'R':
+                r = Result()
+                out = self.r.read(int(p[3])); res = self.r.read(int(p[4]))
+                r.status = 'ok'; r.err = ''; r.exitinfo = ''; r.dump = None; r.rc = 0; r.applied = 'ok'; r.stats = []; r.config = []
+                if res:
+                    head, _, tail = res.rpartition(b'RES ')
+                    f = tail.split()
+                    if len(f) >= 2:
+                        r.applied = f[0].decode(); r.rc = int(f[1])
+                    if head.startswith(b'DUMP\n'):
+                        r.dump = parse_dump(head[5:])
+                if r.applied == 'disabled':
+                    r.status = 'disabled'
+                r.raw_out = out
+                r.out = out.decode('latin-1').split('\n')
+                if r.out and r.out[-1] == '':
+                    r.out.pop()
+                results.append(r)
+            elif p[0] == b'T':
+                err = self.r.read(int(p[1])).decode('latin-1'); ex = self.r.read(int(p[2])).decode('latin-1')
+            elif p[0] == b'END':
+                status = p[1].decode()
+                break
+            else:
+                raise HarnessError('protocol error: %r' % hdr)
+        if 'ERROR: AddressSanitizer' in err:
+            status = 'asan'
+        elif 'ERROR: LeakSanitizer' in err:
+            status = 'lsan'
+        return results, status, err, ex
+
     def close(self):
         try:
             self.w.write(b'QUIT\n')
